@@ -47,9 +47,22 @@ def run_variant(v):
     except SyntaxError as e:
         return dict(property=prop, name=name, status='broken-variant', detail=str(e))
     known = engine.load_known()
-    ctx, _ = engine.run_property(prop, REGISTRY[prop]('quick'), 'quick', overlay=overlay)
-    viol, kn, unk, okc = engine.summarise(ctx, known)
-    fired = [o['rule'] for o in viol] + [o['rule'] + '(inconclusive)' for o in unk]
+    if prop == '*':
+        # behaviour-preserving edit: every property must stay silent
+        from sa.core import Repo
+        repo = Repo(engine.REPO, overlay)
+        fired = []
+        viol = unk = []
+        for pp in sorted(REGISTRY):
+            ctx, _ = engine.run_property(pp, REGISTRY[pp]('quick'), 'quick', repo=repo)
+            v_, kn, u_, okc = engine.summarise(ctx, known)
+            fired += [o['rule'] for o in v_] + [o['rule'] + '(inconclusive)' for o in u_]
+            viol = viol or v_
+            unk = unk or u_
+    else:
+        ctx, _ = engine.run_property(prop, REGISTRY[prop]('quick'), 'quick', overlay=overlay)
+        viol, kn, unk, okc = engine.summarise(ctx, known)
+        fired = [o['rule'] for o in viol] + [o['rule'] + '(inconclusive)' for o in unk]
     if expect == 'fire':
         ok = bool(fired) and (rule is None or any(f.split('(')[0] == rule for f in fired))
     else:
@@ -59,7 +72,7 @@ def run_variant(v):
 
 
 def run_for_property(prop=None, jobs=8):
-    vs = [v for v in VARIANTS if prop is None or v[0] == prop]
+    vs = [v for v in VARIANTS if prop is None or v[0] == prop or (prop == 'benign' and v[0] == '*')]
     if not vs:
         return {'variants': [], 'total': 0}
     if jobs > 1 and len(vs) > 1:
